@@ -79,7 +79,6 @@ package graphicsstate
 // text-state parameter stay as they were
 //@ func (*GraphicsState) ShowTextWithWidth results (dx, dy)
 //@   property C08
-//@   flags nosafety
 //@   ensures line_matrix_and_ctm_untouched: gs.Text.TextLineMatrix == old(gs.Text.TextLineMatrix) && sameGraphics(gs, old(gs)) && sameTextExceptMatrices(gs.Text, old(gs.Text))
 //@   ensures only_the_translation_moves: gs.Text.TextMatrix[0] == old(gs.Text.TextMatrix)[0] && gs.Text.TextMatrix[1] == old(gs.Text.TextMatrix)[1] && gs.Text.TextMatrix[2] == old(gs.Text.TextMatrix)[2] && gs.Text.TextMatrix[3] == old(gs.Text.TextMatrix)[3] && gs.Text.TextMatrix[5] == old(gs.Text.TextMatrix)[5]
 //@   loop 0:
